@@ -1,4 +1,5 @@
 import NdnModel.Basic
+import NdnModel.Utf8
 /-
   The Python vocabulary the translator `harness/py2lean.py` maps source constructs to (and nothing else): integers
   are `Int` (Python ints are unbounded and may be negative), byte strings / buffers are `List UInt8`, a raised
@@ -113,6 +114,56 @@ def bytearrayOfSize (n : Int) : Except PyErr Bytes :=
 
 /-- `int.from_bytes(x, 'big')` (unsigned) -/
 def intFromBytesBig (x : Bytes) : Int := ((beVal x : Nat) : Int)
+
+/-- `b[i] = v` for a literal `0 ≤ v ≤ 255` on a bytearray / memoryview of bytes (`IndexError` outside; a negative
+    index counts from the end) -/
+def setItem (buf : Bytes) (i : Int) (v : Nat) : Except PyErr Bytes :=
+  let j : Int := if i < 0 then i + (buf.length : Nat) else i
+  if j < 0 ∨ (buf.length : Int) ≤ j then .error .indexError
+  else .ok (buf.set j.toNat (UInt8.ofNat v))
+
+/-- `b[a:b] = v` on a buffer PARAMETER, which may be a bytearray or a memoryview: when the slice has exactly the size
+    of `v` both overwrite it in place.  Otherwise a bytearray changes its size and a memoryview raises `ValueError`:
+    that depends on the caller and is NOT modelled - the result is `PyErr.other`, which no model function returns, so
+    every equality theorem has to stay inside the same-size case. -/
+def setSliceSameSize (buf : Bytes) (a b : Int) (v : Bytes) : Except PyErr Bytes :=
+  let lo := normIdx buf.length a
+  let hi := max lo (normIdx buf.length b)
+  if hi - lo = v.length then .ok (buf.take lo ++ v ++ buf.drop hi) else .error .other
+
+/-- `k ** e` for a positive int literal `k`: an int for `e ≥ 0`.  (A negative exponent gives a float, which is outside
+    the model: `PyErr.other`, as above.) -/
+def powLit (k : Nat) (e : Int) : Except PyErr Int :=
+  if 0 ≤ e then .ok ((k ^ e.toNat : Nat) : Int) else .error .other
+
+/-- a Python `str` used as text, seen through its UTF-8 encoding (so: no lone surrogates).  `str.encode('utf-8')` and
+    `bytes.decode('utf-8')` are the two directions; the only law about them that is used is that decoding succeeds
+    exactly on valid UTF-8 (`Ndn.utf8Valid`, the strict CPython decoder) and gives back the same bytes. -/
+structure Str where
+  utf8 : Bytes
+  valid : utf8Valid utf8 = true
+  deriving DecidableEq
+
+/-- `s.encode('utf-8')` -/
+def strEncodeUtf8 (s : Str) : Bytes := s.utf8
+
+/-- `b.decode('utf-8')`: `UnicodeDecodeError` (a `ValueError`) on invalid UTF-8 -/
+def bytesDecodeUtf8 (b : Bytes) : Except PyErr Str :=
+  if h : utf8Valid b = true then .ok ⟨b, h⟩ else .error .unicodeError
+
+/-- the `markers` scratch dict of tlv_model.py restricted to its int entries: name string -> int, insertion-ordered -/
+abbrev Dict := List (String × Int)
+
+/-- `d[k]` (`KeyError` when absent) -/
+def dictGet (d : Dict) (k : String) : Except PyErr Int :=
+  match d.find? (fun p => p.1 == k) with
+  | some p => .ok p.2
+  | none => .error .keyError
+
+/-- `d[k] = v` (an existing key keeps its place) -/
+def dictSet : Dict → String → Int → Dict
+  | [], k, v => [(k, v)]
+  | (k', v') :: r, k, v => if k' == k then (k', v) :: r else (k', v') :: dictSet r k v
 
 /-- `len(x)` -/
 def len {α} (l : List α) : Int := (l.length : Nat)
